@@ -1028,9 +1028,23 @@ func checkCloseEvent(c *Ctx, chRun *ssa.Function) {
 	}
 	bad := map[string]bool{}
 	n := 0
+	tm := buildTermModel(c)
+	writerSelf, readerSelf := true, true
+	if rw := c.FnOpt("root", "Channel.runWriter"); rw != nil {
+		writerSelf = len(selfInitiatedReturns(tm, rw)) > 0
+	}
+	if rr := c.FnOpt("root", "Channel.runReader"); rr != nil {
+		readerSelf = len(selfInitiatedReturns(tm, rr)) > 0
+	}
 	okEnum := enumPaths(chRun.Blocks[0], nil, 4000, func(path []*ssa.BasicBlock) {
 		if isPanicBlock(path[len(path)-1]) {
 			return
+		}
+		// a select case on the result of a worker that never ends on its own cannot fire first
+		if t := selectTaken(sel, path); t >= 0 {
+			if a := rootAlloc(sel.States[t].Chan); (a == writerCh && a != nil && !writerSelf) || (a == readerCh && a != nil && !readerSelf) {
+				return
+			}
 		}
 		n++
 		gotR, gotW := false, false
